@@ -142,7 +142,9 @@ func c16QueryFilter(name string) func(token.Type) bool {
 	case "return":
 		return func(t token.Type) bool { return t == token.RETURN }
 	case "literal":
-		return func(t token.Type) bool { return t == token.INT || t == token.STRING || t == token.FLOAT || t == token.TRUE || t == token.NULL }
+		return func(t token.Type) bool {
+			return t == token.INT || t == token.STRING || t == token.FLOAT || t == token.TRUE || t == token.NULL
+		}
 	case "function":
 		return func(t token.Type) bool { return t == token.FUNCTION }
 	}
@@ -243,6 +245,36 @@ func checkC16(c *oracleCtx, flags string, ops []customOp, src string, wantValid 
 				in2["query_only_at"] = name
 				c.violation("sparse-queries", "an observer asking only at "+name+" tokens gets other answers than one asking at every step: "+
 					firstDiff(strings.Join(want, ","), strings.Join(o3.trace, ",")), in2)
+				return
+			}
+		}
+		// a plugin that keeps a context value of its own on the stack around `while` statements (PushContext / PopContext are
+		// exported for that) does not change whether a token is inside a function
+		if strings.Contains(src, "while") {
+			su5 := su
+			su5.pluginCtx = true
+			o5 := runParse(su5, src)
+			bad := ""
+			if o5.ctx != 0 || o5.inFn {
+				bad = fmt.Sprintf("after parsing: CurrentContext=%d IsInFunction=%v", o5.ctx, o5.inFn)
+			} else if len(o5.trace) != len(o.trace) {
+				bad = fmt.Sprintf("%d events instead of %d", len(o5.trace), len(o.trace))
+			} else {
+				for i := range o.trace {
+					a, b := parseEvent(o.trace[i]), parseEvent(o5.trace[i])
+					if a.kind != b.kind || a.line != b.line || a.co != b.co || a.inFn != b.inFn {
+						bad = fmt.Sprintf("event %s becomes %s", o.trace[i], o5.trace[i])
+						break
+					}
+				}
+			}
+			if bad != "" {
+				in2 := map[string]any{}
+				for k, v := range input {
+					in2[k] = v
+				}
+				in2["plugin"] = "a statement interceptor pushes ContextType(40) around every while statement"
+				c.violation("plugin-context", "with a plugin context on the stack the answers about function nesting change: "+bad, in2)
 				return
 			}
 		}
@@ -364,7 +396,8 @@ func oracleC16(c *oracleCtx) {
 		"function f(a) { if (a) { while (a) { for (;;) { return { k: function g() { { a; } } }; } } } }",
 		"{ } { { } } function f() { }", "let v = function() { }; v;",
 		"function f() { { 1; } }\n{ { 2; } }\nfunction g() { { return 3; } }\n{ { 4; } }", "{ { 1; } }\nfunction f() { { 2; } }\nx = function() { { 3; } };\n{ { 4; } }",
-		"if (a) { if (b) { return 1; } }\nfunction f() { return 2; }\nwhile (c) { return 3; }", "while (a) function_call(function() { return a; });",
+		"if (a) { if (b) { return 1; } }\nfunction f() { return 2; }\nwhile (c) { return 3; }",
+		"function f() { while (a) { b; return c; } while (d) e; }\nwhile (g) { function h() { while (i) { j; } } k; }", "x = function() { while (a) b(function() { while (c) d; }); };", "while (a) function_call(function() { return a; });",
 	}
 	for _, s := range fixed {
 		for _, fl := range modeFlags {
